@@ -80,8 +80,7 @@ def Sess.removeObj (S : Sess) (toi : Nat) : Sess :=
   match S.findObj toi with
   | none => S
   | some o =>
-    let o := { o with st := drop o.st }
-    let (S, _) := S.flush o
+    let S := (S.flush { o with st := drop o.st }).1
     { S with objects := S.objects.filter (·.toi != toi) }
 
 def insertSorted (x : Nat) : List Nat → List Nat
@@ -114,32 +113,40 @@ def attachFirst (P : Params) : List Fdt → St → Rx St
     | .ok (st, true) => .ok st
     | .ok (st, false) => attachFirst P r st
 
-/-- `push_obj(pkt)` -/
-def Sess.pushObj (PP : SParams) (S : Sess) (p : Pkt) : Rx Sess :=
-  let gate (inSet : Bool) (S : Sess) (rm : Sess → Sess) (k : Sess → Rx Sess) : Rx Sess :=
-    if !inSet then k S else
-    match inlinePayloadId p.cp p.pid with
-    | none => .ok S                           -- `?` : push_data returns Err
-    | some pid => if pid.sbn = 0 ∧ pid.esi = 0 then k (rm S) else .ok S
-  if S.completed.contains p.toi ∧ S.cfg.receiveOnce then .ok S else
-  gate (S.completed.contains p.toi) S (fun S => { S with completed := S.completed.filter (· != p.toi) }) fun S =>
-  gate (S.errors.contains p.toi) S (fun S => { S with errors := S.errors.filter (· != p.toi) }) fun S =>
-  let mk : Rx Obj :=
-    match S.findObj p.toi with
-    | some o => .ok o
-    | none =>
-      let base := callsOf S p.toi
-      match attachFirst (PP.forObj p.toi base) S.fdts (St.new p.toi S.cfg.maxSize) with
-      | .error e => .error e
-      | .ok st => .ok { toi := p.toi, base := base, st := st }
-  match mk with
+/-- `objects.get_mut(&toi)` or `create_obj(toi)` -/
+def Sess.mkObj (PP : SParams) (S : Sess) (toi : Nat) : Rx Obj :=
+  match S.findObj toi with
+  | some o => .ok o
+  | none =>
+    let base := callsOf S toi
+    match attachFirst (PP.forObj toi base) S.fdts (St.new toi S.cfg.maxSize) with
+    | .error e => .error e
+    | .ok st => .ok { toi := toi, base := base, st := st }
+
+/-- `push_obj` past the completed / error filters: find or create the object, `push`, `check_object_state` -/
+def Sess.pushCore (PP : SParams) (S : Sess) (p : Pkt) : Rx Sess :=
+  match S.mkObj PP p.toi with
   | .error e => .error e
   | .ok o =>
     match push (PP.forObj o.toi o.base) o.st p with
     | .error e => .error e
     | .ok st =>
-      let (S, o) := S.flush { o with st := st }
-      (S.putObj o).checkObjectState p.toi |> .ok
+      ((S.flush { o with st := st }).1.putObj (S.flush { o with st := st }).2).checkObjectState p.toi |> .ok
+
+/-- the `objects_completed` / `objects_error` filter of `push_obj`: a TOI in the set is let through (and taken out of the set)
+    only by the packet (SBN 0, ESI 0) -/
+def gate (p : Pkt) (inSet : Bool) (S : Sess) (rm : Sess → Sess) (k : Sess → Rx Sess) : Rx Sess :=
+  if !inSet then k S else
+  match inlinePayloadId p.cp p.pid with
+  | none => .ok S                           -- `?` : push_data returns Err
+  | some pid => if pid.sbn = 0 ∧ pid.esi = 0 then k (rm S) else .ok S
+
+/-- `push_obj(pkt)` -/
+def Sess.pushObj (PP : SParams) (S : Sess) (p : Pkt) : Rx Sess :=
+  if S.completed.contains p.toi ∧ S.cfg.receiveOnce then .ok S else
+  gate p (S.completed.contains p.toi) S (fun S => { S with completed := S.completed.filter (· != p.toi) }) fun S =>
+  gate p (S.errors.contains p.toi) S (fun S => { S with errors := S.errors.filter (· != p.toi) }) fun S =>
+  S.pushCore PP p
 
 /-- an FDT instance has been completely received -/
 def Sess.fdtComplete (PP : SParams) (S : Sess) (f : Fdt) : Rx Sess :=
@@ -150,8 +157,7 @@ def Sess.fdtComplete (PP : SParams) (S : Sess) (f : Fdt) : Rx Sess :=
       match attachFdt (PP.forObj o.toi o.base) o.st f.id ((f.files.find? (·.1 == o.toi)).map (·.2)) with
       | .error e => .error e
       | .ok (st, ok) =>
-        let (S, o) := S.flush { o with st := st }
-        let S := S.putObj o
+        let S := (S.flush { o with st := st }).1.putObj (S.flush { o with st := st }).2
         go r (if ok then S.checkObjectState o.toi else S)
   match go S.objects S with
   | .error e => .error e
@@ -164,5 +170,29 @@ def Sess.fdtComplete (PP : SParams) (S : Sess) (f : Fdt) : Rx Sess :=
 /-- Drop of the `Receiver` -/
 def Sess.dropAll (S : Sess) : Sess :=
   S.objects.foldl (fun S o => S.removeObj o.toi) S
+
+/-- `cleanup_objects` when every object timed out: `objects_error.remove(toi); objects.remove(toi)` for each of them -/
+def Sess.cleanupAll (S : Sess) : Sess :=
+  S.objects.foldl (fun S o => ({ S with errors := S.errors.filter (· != o.toi) }).removeObj o.toi) S
+
+/-- what the session sees: a data packet, a completely received FDT instance, the time-out sweep, Drop of the receiver -/
+inductive SOp
+  | pkt (p : Pkt)
+  | fdt (f : Fdt)
+  | cleanup
+  | dropAll
+
+def Sess.step (PP : SParams) (S : Sess) : SOp → Rx Sess
+  | .pkt p => S.pushObj PP p
+  | .fdt f => S.fdtComplete PP f
+  | .cleanup => .ok S.cleanupAll
+  | .dropAll => .ok S.dropAll
+
+def Sess.run (PP : SParams) : Sess → List SOp → Rx Sess
+  | S, [] => .ok S
+  | S, op :: ops =>
+    match S.step PP op with
+    | .error e => .error e
+    | .ok S => Sess.run PP S ops
 
 end Flute.ObjSess
